@@ -50,7 +50,8 @@ def case_of(cid, lines, rnd):
             v = "p%d" % n
             st.append({"c": "p", "line": "set probe %s" % v, "op": {"op": "probe-set", "v": v}})
             st.append({"c": "p", "line": "get probe", "op": {"op": "probe-get"}})
-    return {"id": cid, "steps": st}
+    # the node's real replication loop runs next to the handlers and is fed what they queue
+    return {"id": cid, "steps": st, "services": True}
 
 
 def normalize(raw_files, out_path):
@@ -76,6 +77,8 @@ def normalize(raw_files, out_path):
                           "op": op.get("op", "fuzz"), "v": op.get("v", ""), "abs": op.get("abs", []),
                           "line": raw.get("line", "")[:200], "cls": r.get("cls", "ok"),
                           "msg": r.get("msg", "")[:200], "rv": r.get("val", ""), "poisoned": poisoned,
+                          "svcdead": raw.get("services", {}).get("repl", "alive") != "alive",
+                          "svcwhy": raw.get("services", {}).get("why", "")[:200],
                           "dbs": dbs}
                 g.write(json.dumps(ev) + "\n")
                 n += 1
